@@ -160,6 +160,10 @@ def runOp (op : String) (a : List String) : Option String :=
   | "addr", [pk, id] => do
     let pk ← unhex pk; let id ← id.toNat?
     pure ("ok " ++ hx (Wif.address pr pk (UInt8.ofNat id)))
+  | "addr.seq", [pk, ids] => do
+    let pk ← unhex pk
+    let ids ← (ids.splitOn ",").mapM (·.toNat?)
+    pure ("ok" ++ String.join (ids.map fun id => " " ++ hx (Wif.address pr pk (UInt8.ofNat id))))
   | "hash.sha256", [h] => do let b ← unhex h; pure ("ok " ++ hx (pr.sha256 b))
   | "hash.sha256d", [h] => do let b ← unhex h; pure ("ok " ++ hx (pr.sha256d b))
   | "hash.ripemd160", [h] => do let b ← unhex h; pure ("ok " ++ hx (pr.ripemd160 b))
